@@ -83,19 +83,34 @@ func (m *multi) toProto(isCellblocks bool, cbs [][]byte) (proto.Message, [][]byt
 			continue
 		}
 
+		s, withCellblocks := c.(canSerializeCellBlocks)
+		withCellblocks = withCellblocks && isCellblocks && s.CellBlocksEnabled()
+
+		var msg proto.Message
+		if !withCellblocks {
+			msg = c.ToProto()
+			if err := proto.CheckInitialized(msg); err != nil {
+				// A call that can't be marshalled (a Get without a
+				// key, say) would make marshalling the whole request
+				// fail: it's this call's problem, not that of the
+				// others in the request.
+				m.calls[i] = nil
+				c.ResultChan() <- hrpc.RPCResult{
+					Error: fmt.Errorf("failed to marshal request: %s", err)}
+				continue
+			}
+		}
+
 		as, ok := actionsPerReg[c.Region()]
 		if !ok {
 			as = &actions{}
 			actionsPerReg[c.Region()] = as
 		}
 
-		var msg proto.Message
-		if s, ok := c.(canSerializeCellBlocks); isCellblocks && ok && s.CellBlocksEnabled() {
+		if withCellblocks {
 			var sz uint32
 			msg, as.cellblocks, sz = s.SerializeCellBlocks(as.cellblocks)
 			size += sz
-		} else {
-			msg = c.ToProto()
 		}
 
 		a := &pbActions[i]
